@@ -296,17 +296,18 @@ class CleanupConfiguration(ConfigurationBase):
                 else:
                     levels = list(range(0, grid.levels))
 
+                remove_all = self.remove_all
                 if not tile_manager.cache.supports_timestamp:
                     # for caches without timestamp support (like MBTiles)
                     if self.remove_timestamp is self.init_time:
-                        # remove everything
-                        self.remove_all = True
+                        # remove everything (from this cache only)
+                        remove_all = True
                     else:
                         raise SeedConfigurationError(
                             "cleanup does not support remove_before for '%s'"
                             " because cache '%s' does not support timestamps" % (self.name, cache_name))
                 md = dict(name=self.name, cache_name=cache_name, grid_name=grid_name)
-                yield CleanupTask(md, tile_manager, levels, self.remove_timestamp, remove_all=self.remove_all,
+                yield CleanupTask(md, tile_manager, levels, self.remove_timestamp, remove_all=remove_all,
                                   coverage=coverage, complete_extent=complete_extent)
 
 
